@@ -23,6 +23,91 @@ type TEPolicy struct {
 	// Verifier: the storage also implements the OPTIONAL op.TokenExchangeTokensVerifierStorage
 	// (ExtVerifier below); only honoured by AsStorageTEWith.
 	Verifier bool
+	// Act: what the storage decides about the act claim of tokens issued for a delegation request.
+	// "" = refstore's own (JWT access tokens: {sub: actor}; ID tokens: none), "none" = no act
+	// claim anywhere, "mapped" = {sub: "mapped:"+actor}, "chain" = {sub: actor, act: {sub: "gateway"}}
+	// (the latter two in JWT access tokens and ID tokens alike).
+	Act string
+	// SessionFromRequest: the storage also implements the OPTIONAL op.CanTerminateSessionFromRequest
+	// (SessFromRequest below); only honoured by AsStorageTEWith.
+	SessionFromRequest bool
+	// NoLogoutFor: a client whose sessions SessFromRequest fails to end (it returns an error,
+	// the backend that holds this client's sessions is down); "" = none.
+	NoLogoutFor string
+}
+
+// ActClaim is the act claim policy p decides for actor ("" = none); idToken: for an ID token.
+func (p TEPolicy) ActClaim(actor string, idToken bool) map[string]any {
+	if actor == "" {
+		return nil
+	}
+	switch p.Act {
+	case "":
+		if idToken {
+			return nil
+		}
+		return map[string]any{"sub": actor}
+	case "mapped":
+		return map[string]any{"sub": "mapped:" + actor}
+	case "chain":
+		return map[string]any{"sub": actor, "act": map[string]any{"sub": "gateway"}}
+	}
+	return nil
+}
+
+func (t TEP) GetPrivateClaimsFromTokenExchangeRequest(ctx context.Context, request op.TokenExchangeRequest) (map[string]any, error) {
+	claims, err := t.TE.GetPrivateClaimsFromTokenExchangeRequest(ctx, request)
+	if err != nil || t.P.Act == "" {
+		return claims, err
+	}
+	delete(claims, "act")
+	if a := t.P.ActClaim(request.GetExchangeActor(), false); a != nil {
+		claims["act"] = a
+	}
+	return claims, nil
+}
+
+func (t TEP) SetUserinfoFromTokenExchangeRequest(ctx context.Context, ui *oidc.UserInfo, request op.TokenExchangeRequest) error {
+	if err := t.TE.SetUserinfoFromTokenExchangeRequest(ctx, ui, request); err != nil {
+		return err
+	}
+	if a := t.P.ActClaim(request.GetExchangeActor(), true); a != nil {
+		ui.AppendClaims("act", a)
+	}
+	return nil
+}
+
+// SessFromRequest is the OPTIONAL storage interface op.CanTerminateSessionFromRequest: the end
+// user of an end_session request that names none (no id_token_hint) is the one the user agent's
+// session belongs to - which the deployment put into the request context (WithUASession), e.g.
+// from a session cookie. Otherwise like TerminateSession(UserID, ClientID).
+type SessFromRequest struct {
+	S           *Store
+	NoLogoutFor string
+}
+
+type uaSessionKey struct{}
+
+// WithUASession marks ctx as belonging to the user agent session of user.
+func WithUASession(ctx context.Context, user string) context.Context {
+	return context.WithValue(ctx, uaSessionKey{}, user)
+}
+
+func (f SessFromRequest) TerminateSessionFromRequest(ctx context.Context, req *op.EndSessionRequest) (string, error) {
+	if err := f.S.enter(ctx, "TerminateSessionFromRequest"); err != nil {
+		return "", err
+	}
+	if f.NoLogoutFor != "" && req.ClientID == f.NoLogoutFor {
+		return "", ErrInjected
+	}
+	user := req.UserID
+	if user == "" {
+		user, _ = ctx.Value(uaSessionKey{}).(string)
+	}
+	if err := f.S.TerminateSession(ctx, user, req.ClientID); err != nil {
+		return "", err
+	}
+	return req.RedirectURI, nil
 }
 
 // TEP is TE under a policy.
@@ -143,28 +228,58 @@ func (v ExtVerifier) VerifyExchangeActorToken(ctx context.Context, token string,
 }
 
 // AsStorageTEWith: the store with all optional capabilities, token exchange under policy p,
-// optionally CanGetPrivateClaimsFromRequest, and - when p.Verifier - TokenExchangeTokensVerifierStorage.
+// optionally CanGetPrivateClaimsFromRequest, and - as p says - TokenExchangeTokensVerifierStorage
+// and CanTerminateSessionFromRequest.
 func (s *Store) AsStorageTEWith(p TEPolicy, fromRequest bool) op.Storage {
+	type base = struct {
+		*Store
+		CC
+		TEP
+		Dev
+	}
+	b := base{s, CC{s}, TEP{TE{s}, p}, Dev{s}}
+	fr, ev, sr := FromRequest{s}, ExtVerifier{s}, SessFromRequest{s, p.NoLogoutFor}
 	switch {
-	case p.Verifier && fromRequest:
+	case fromRequest && p.Verifier && p.SessionFromRequest:
 		return struct {
-			*Store
-			CC
-			TEP
-			Dev
+			base
 			FromRequest
 			ExtVerifier
-		}{s, CC{s}, TEP{TE{s}, p}, Dev{s}, FromRequest{s}, ExtVerifier{s}}
+			SessFromRequest
+		}{b, fr, ev, sr}
+	case fromRequest && p.Verifier:
+		return struct {
+			base
+			FromRequest
+			ExtVerifier
+		}{b, fr, ev}
+	case fromRequest && p.SessionFromRequest:
+		return struct {
+			base
+			FromRequest
+			SessFromRequest
+		}{b, fr, sr}
+	case p.Verifier && p.SessionFromRequest:
+		return struct {
+			base
+			ExtVerifier
+			SessFromRequest
+		}{b, ev, sr}
+	case fromRequest:
+		return struct {
+			base
+			FromRequest
+		}{b, fr}
 	case p.Verifier:
 		return struct {
-			*Store
-			CC
-			TEP
-			Dev
+			base
 			ExtVerifier
-		}{s, CC{s}, TEP{TE{s}, p}, Dev{s}, ExtVerifier{s}}
-	case fromRequest:
-		return s.AsStorageTEPolicyFromRequest(p)
+		}{b, ev}
+	case p.SessionFromRequest:
+		return struct {
+			base
+			SessFromRequest
+		}{b, sr}
 	}
-	return s.AsStorageTEPolicy(p)
+	return b
 }
